@@ -50,7 +50,7 @@ inline bool vp_from_bits<bool>(uint64_t b)
 }
 
 #define VPF_ENUM(name, TYPE, GET, SET, OFF, NB, MASK, SHIFT) F_##name,
-#define VPF_SNAP(name, TYPE, GET, SET, OFF, NB, MASK, SHIFT) g[i++] = vp_bits<TYPE>(static_cast<TYPE>(o.GET));
+#define VPF_SNAP(name, TYPE, GET, SET, OFF, NB, MASK, SHIFT) g[i++] = vp_bits<TYPE>(static_cast<TYPE>(GET));
 #define VPF_OFF(name, TYPE, GET, SET, OFF, NB, MASK, SHIFT) OFF,
 #define VPF_NB(name, TYPE, GET, SET, OFF, NB, MASK, SHIFT) NB,
 #define VPF_MASK(name, TYPE, GET, SET, OFF, NB, MASK, SHIFT) static_cast<uint64_t>(MASK),
@@ -65,7 +65,7 @@ inline bool vp_from_bits<bool>(uint64_t b)
     {                                                                                                                           \
         const uint64_t bitsv = val & (static_cast<uint64_t>(MASK) >> (SHIFT));                                                  \
         TYPE v = vp_from_bits<TYPE>(bitsv);                                                                                     \
-        o.SET;                                                                                                                  \
+        SET;                                                                                                                    \
         snap(o, after);                                                                                                         \
         T::raw(o, rawAfter);                                                                                                    \
         if (MODE == 11)                                                                                                         \
@@ -175,3 +175,35 @@ inline bool vp_from_bits<bool>(uint64_t b)
     VP_HARNESS(PREFIX##_c11) { PREFIX##_ns::run<11>(); }                                                     \
     VP_HARNESS(PREFIX##_c12) { PREFIX##_ns::run<12>(); }                                                     \
     VP_HARNESS(PREFIX##_c12_default) { PREFIX##_ns::reserved(); }
+
+// Flag operations setFlag(mask, bool): the named flags field becomes (before & ~m) | (b ? m : 0) for every enumerator
+// mask m (also multi-bit ones), from any prior state; no other field's getter and no byte outside the flags field changes.
+#define VP_FLAGOP_HARNESS(ENTRY, NS, TT, LBL, FIELD, SETCALL, ...)                                                    \
+    VP_HARNESS(ENTRY)                                                                                                 \
+    {                                                                                                                 \
+        using namespace NS;                                                                                           \
+        using T = TT;                                                                                                 \
+        uint8_t rawBefore[T::LEN], rawAfter[T::LEN];                                                                  \
+        uint64_t before[NF + 1], after[NF + 1];                                                                       \
+        vp_bytes(rawBefore, T::LEN);                                                                                  \
+        T::constrain(rawBefore);                                                                                      \
+        T::Obj* op = T::make(rawBefore);                                                                              \
+        T::Obj& o = *op;                                                                                              \
+        snap(o, before);                                                                                              \
+        static const uint16_t flagMasks[] = {__VA_ARGS__};                                                            \
+        const unsigned k = vp_u8();                                                                                   \
+        vp_assume(k < sizeof(flagMasks) / sizeof(flagMasks[0]));                                                      \
+        const uint16_t m = flagMasks[k];                                                                              \
+        const bool b = (vp_u8() & 1) != 0;                                                                            \
+        SETCALL;                                                                                                      \
+        snap(o, after);                                                                                               \
+        T::raw(o, rawAfter);                                                                                          \
+        vp_assert(after[F_##FIELD] == ((before[F_##FIELD] & ~static_cast<uint64_t>(m)) | (b ? m : 0)),                \
+                  LBL ": a flag is set / cleared and its neighbours in the flags field keep their value");            \
+        for (int j = 0; j < NF; ++j)                                                                                  \
+            if (j != F_##FIELD && !overlap(F_##FIELD, j))                                                             \
+                vp_assert(after[j] == before[j], LBL ": setting a flag changes no other field");                      \
+        for (unsigned byte = 0; byte < T::LEN; ++byte)                                                                \
+            vp_assert((rawAfter[byte] & ~tab.bm[F_##FIELD][byte]) == (rawBefore[byte] & ~tab.bm[F_##FIELD][byte]),    \
+                      LBL ": setting a flag changes no byte outside the flags field");                                \
+    }
